@@ -1,4 +1,6 @@
 import Model.GR
+import Lemmas.GRInv
+import Lemmas.GRTimers
 /-!
 # C12 — graceful-restart and LLGR stale routes live exactly as long as the RFCs allow
 
@@ -142,7 +144,7 @@ theorem tick_before_deadline (p : Peer) (d D : Nat) (hr : p.restartAt = some D)
     (hl : p.llTimers = []) (hd : p.defTimers = []) (hlt : p.now + d < D) :
     tick p d = { p with now := p.now + d } := by
   have hnd : nextDue p (p.now + d) = none := by
-    simp [nextDue, hr, hl, hd, minBy, Nat.not_le.mpr hlt]
+    simp [nextDue, hr, hl, hd, minBy, pickDue, Nat.not_le.mpr hlt]
   unfold tick advanceTo
   simp [hnd]
 
@@ -260,11 +262,12 @@ theorem negotiation_forgets (p : Peer) (c : Caps) :
 
 /-- A re-announced route is fresh: after an announcement the entry for that (family, prefix) is the
 new one, not stale, and it is the only one. -/
-theorem announce_fresh (p : Peer) (fam key ver nLL : Nat) (noLL : Bool) (he : p.est = true) :
+theorem announce_fresh (p : Peer) (fam key ver nLL : Nat) (noLL : Bool) (he : p.est = true)
+    (hf : (famIds p).contains fam = true) :
     ⟨fam, key, ver, false, nLL, noLL⟩ ∈ (onAnnounce p fam key ver noLL nLL).rib ∧
     ∀ r ∈ (onAnnounce p fam key ver noLL nLL).rib, r.fam = fam → r.key = key →
       r = ⟨fam, key, ver, false, nLL, noLL⟩ := by
-  simp only [onAnnounce, he, Bool.not_true, Bool.false_eq_true, if_false, announce]
+  simp only [onAnnounce, he, hf, Bool.not_true, Bool.false_eq_true, if_false, announce, Bool.or_self]
   constructor
   · simp
   · intro r hr hf hk
@@ -455,5 +458,131 @@ theorem llgr_export (peerLLGR stale : Bool) :
 theorem llgr_least_preferred (s1 s2 : Bool) :
     (compareLLGR s1 s2 = 1 ↔ (s1 = false ∧ s2 = true)) ∧ (compareLLGR s1 s2 = 2 ↔ (s1 = true ∧ s2 = false)) := by
   cases s1 <;> cases s2 <;> decide
+
+/-! ## 9. every history
+
+`GR.run p0 es` is the model state after the event history `es` (session establishment with any
+capabilities, loss of any kind, failed connection attempts / administrative shutdown below ESTABLISHED,
+announce, withdraw, End-of-RIB, clock steps of any length — the timers fire inside) from a neighbour `p0`
+before its first session (`GR.Init`).  The only assumption on the events is `GR.EvOK`: the peer does not
+itself announce routes already carrying LLGR_STALE.  The invariant `GR.Inv` (Lemmas/GRInv.lean) is the
+harness oracle's deadline rule as a predicate; it is proved inductive over `GR.step` for EVERY event, and
+`GR.Timely` (Lemmas/GRTimers.lean: no pending timer is overdue — the fuel of `advanceTo` always suffices)
+holds after every event. -/
+
+/-- the invariant and the no-overdue-timer property hold after every history -/
+theorem C12_inv_run (p0 : Peer) (hi : Init p0) (es : List Ev) (hok : ∀ e ∈ es, EvOK e) :
+    Inv (run p0 es) ∧ Timely (run p0 es) :=
+  ⟨inv_run es p0 hok (inv_init p0 hi), timely_run es p0 (timely_init p0 hi)⟩
+
+/-- NO ROUTE OUTLIVES ITS ALLOWANCE.  After every history, a STALE route in the Adj-RIB-In is there only
+while the peer is restarting, and then one of three things holds:
+* the session is re-established and End-of-RIB is still awaited (the stale routes of families the new GR
+  capability does not keep went at the re-establishment, `reestablish_drops_unlisted`; all others go at
+  the last awaited End-of-RIB, `restart_complete_no_stale`);
+* the restart timer is running: it was armed at the recorded loss instant `t0` with the restart time the
+  peer advertised, and the present instant is strictly before `t0 + restartTime`;
+* an LLGR timer is running and the present instant is strictly before its deadline. -/
+theorem C12_no_route_outlives_its_allowance (p0 : Peer) (hi : Init p0) (es : List Ev)
+    (hok : ∀ e ∈ es, EvOK e) :
+    ∀ r ∈ (run p0 es).rib, r.stale = true →
+      (run p0 es).peerRestarting = true ∧
+      ((run p0 es).est = true ∨
+       (∃ t0, (run p0 es).downtime = some t0 ∧ (run p0 es).restartAt = some (t0 + (run p0 es).restartTime) ∧
+              (run p0 es).now < t0 + (run p0 es).restartTime) ∨
+       (∃ t ∈ (run p0 es).llTimers, (run p0 es).now < t.2)) := by
+  obtain ⟨hinv, htime⟩ := C12_inv_run p0 hi es hok
+  intro r hr hs
+  obtain ⟨hpr, hor⟩ := hinv.stale r hr hs
+  refine ⟨hpr, ?_⟩
+  rcases hor with h1 | h1 | h1
+  · exact Or.inl h1
+  · right; left
+    cases hra : (run p0 es).restartAt with
+    | none => exact absurd hra h1
+    | some D =>
+      obtain ⟨t0, ht0, hD⟩ := hinv.core.rst D hra
+      exact ⟨t0, ht0, by rw [hD], by rw [← hD]; exact htime.2 D hra⟩
+  · right; right
+    cases hl : (run p0 es).llTimers with
+    | nil => exact absurd hl h1
+    | cons t ts => exact ⟨t, List.mem_cons_self .., htime.1 t (by rw [hl]; exact List.mem_cons_self ..)⟩
+
+/-- LLGR-stale routes, after every history: LLGR_STALE is carried at most once; a route carrying it is
+stale, the long-lived period is running, and an LLGR timer OF ITS OWN FAMILY is pending and not overdue.
+`_partial`: what is missing for the full deadline statement is that this pending deadline equals
+(start of the long-lived period) + (the LLGR time the peer advertised for the family) — that equation is
+proved for the transition that starts the timer (`ll_timer_deadline`), not carried through histories
+(a later session may re-negotiate the family's time while the timer keeps running). -/
+theorem C12_llgr_stale_deadline_partial (p0 : Peer) (hi : Init p0) (es : List Ev)
+    (hok : ∀ e ∈ es, EvOK e) :
+    ∀ r ∈ (run p0 es).rib, r.nLL ≤ 1 ∧
+      (r.nLL = 1 → r.stale = true ∧ (run p0 es).llRun = true ∧
+        ∃ D, (r.fam, D) ∈ (run p0 es).llTimers ∧ (run p0 es).now < D) := by
+  obtain ⟨hinv, htime⟩ := C12_inv_run p0 hi es hok
+  intro r hr
+  obtain ⟨h1, h2⟩ := hinv.core.nll r hr
+  refine ⟨h1, fun h3 => ?_⟩
+  obtain ⟨h4, h5, D, hD⟩ := h2 h3
+  exact ⟨h4, h5, D, hD, htime.1 _ hD⟩
+
+/-- the deadline an LLGR timer is started with: now + the family's advertised LLGR time -/
+theorem ll_timer_deadline (q : Peer) (f : Nat) :
+    (startLL q f).llTimers = q.llTimers ++ [(f, q.now + ((q.fams.find? (·.id == f)).map (·.llTime)).getD 0)] := rfl
+
+/-- After every history: once the restart is over — by End-of-RIB, by a timer, by a non-graceful loss, by
+the peer returning without graceful restart — no stale route of any family is left. -/
+theorem C12_no_stale_route_once_restart_is_over (p0 : Peer) (hi : Init p0) (es : List Ev)
+    (hok : ∀ e ∈ es, EvOK e) (hpr : (run p0 es).peerRestarting = false) :
+    ∀ r ∈ (run p0 es).rib, r.stale = false := by
+  intro r hr
+  cases hs : r.stale
+  · rfl
+  · have := ((C12_inv_run p0 hi es hok).1.stale r hr hs).1
+    rw [hpr] at this; exact absurd this (by simp)
+
+/-- After every history: while the session is down every route held is stale — a route that is not
+stale was announced (or re-announced) over the current session. -/
+theorem C12_fresh_routes_only_in_a_session (p0 : Peer) (hi : Init p0) (es : List Ev)
+    (hok : ∀ e ∈ es, EvOK e) (hd : (run p0 es).est = false) :
+    ∀ r ∈ (run p0 es).rib, r.stale = true :=
+  (C12_inv_run p0 hi es hok).1.core.down hd
+
+/-- STALE ONLY AFTER A GRACEFUL LOSS.  In a history whose losses are all of kinds that are never
+graceful (administrative shutdown, prefix-limit teardown, a NOTIFICATION we sent — `neverGraceful`; for
+the state-dependent kinds `graceful_iff` says when they are), the peer is never restarting and no route
+is ever stale. -/
+theorem C12_stale_only_after_graceful_loss (p0 : Peer) (hi : Init p0) (hpr0 : p0.peerRestarting = false)
+    (es : List Ev) (hok : ∀ e ∈ es, EvOK e) (hng : ∀ e ∈ es, NoGraceful e) :
+    (run p0 es).peerRestarting = false ∧ ∀ r ∈ (run p0 es).rib, r.stale = false := by
+  have h1 : (run p0 es).peerRestarting = false := nr_run es p0 hng hpr0
+  exact ⟨h1, C12_no_stale_route_once_restart_is_over p0 hi es hok h1⟩
+
+/-- non-vacuity: a neighbour with two families; GR (restart time 20) and LLGR (25 s for family 0)
+negotiated; two routes; transport failure; 10 s later both routes are held stale under the restart
+timer; 15 s later (restart timer expired) the LLGR family's route is LLGR-stale under its timer. -/
+def exPeer : Peer :=
+  { cfgGR := true, cfgNotif := false, cfgLL := true, deferral := 30,
+    fams := [{ id := 0, mpCfg := true, mpEnabled := true }, { id := 1, mpCfg := true, mpEnabled := true }] }
+
+def exCaps : Caps :=
+  { gr := true, nbit := false, rbit := false, time := 20, tuples := [0, 1], llgr := true, ltuples := [(0, 25)], mp := [0, 1] }
+
+def exHistory : List Ev :=
+  [.est exCaps, .ann 0 1 1 false 0, .ann 1 1 1 false 0, .eor 0, .eor 1, .loss .readFail, .tick 10]
+
+example : Init exPeer := ⟨rfl, rfl, rfl, rfl, rfl, by decide⟩
+theorem exHistory_ok : ∀ e ∈ exHistory, EvOK e := by
+  intro e he
+  simp only [exHistory, List.mem_cons, List.mem_nil_iff, or_false] at he
+  rcases he with rfl | rfl | rfl | rfl | rfl | rfl | rfl <;> simp [EvOK]
+example : (run exPeer exHistory).rib = [⟨0, 1, 1, true, 0, false⟩, ⟨1, 1, 1, true, 0, false⟩] ∧
+    (run exPeer exHistory).restartAt = some 20 ∧ (run exPeer exHistory).now = 10 ∧
+    (run exPeer exHistory).peerRestarting = true := by decide
+example : (run exPeer (exHistory ++ [.tick 15])).rib = [⟨0, 1, 1, true, 1, false⟩] ∧
+    (run exPeer (exHistory ++ [.tick 15])).llTimers = [(0, 45)] ∧
+    (run exPeer (exHistory ++ [.tick 15])).now = 25 := by decide
+example : (run exPeer (exHistory ++ [.tick 15, .tick 20])).rib = [] ∧
+    (run exPeer (exHistory ++ [.tick 15, .tick 20])).peerRestarting = false := by decide
 
 end C12
